@@ -56,6 +56,28 @@ fn forward_probe(a: &mut Vec<i128>) -> String {
 	}
 }
 
+/// closing_probe <we_are_funder 0/1> <value_to_self_msat> <holder_dust> <fee> <skip_remote 0/1>
+/// channel value is fixed at 100_000 sat (functional test default)
+fn closing_probe(a: &mut Vec<i128>) -> String {
+	let chanmon_cfgs = create_chanmon_cfgs(2);
+	let node_cfgs = create_node_cfgs(2, &chanmon_cfgs);
+	let node_chanmgrs = create_node_chanmgrs(2, &node_cfgs, &[None, None]);
+	let nodes = create_network(2, &node_cfgs, &node_chanmgrs);
+	let chan = create_announced_chan_between_nodes(&nodes, 0, 1);
+	let chan_id = chan.2;
+	let (funder, to_self, dust, fee, skip) = (a[0] != 0, a[1] as u64, a[2] as u64, a[3] as u64, a[4] != 0);
+	let (me, peer) = if funder { (0, 1) } else { (1, 0) };
+	let peer_id = nodes[peer].node.get_our_node_id();
+	let r = lightning::ln::channelmanager::verif_hooks::closing_probe(
+		nodes[me].node, &peer_id, &chan_id, to_self, dust, fee, skip,
+	);
+	match r {
+		Some(Ok((h, c, f))) => format!("0 {} {} {}", h, c, f),
+		Some(Err(())) => "1 0 0 0".to_string(),
+		None => "error channel not found".to_string(),
+	}
+}
+
 fn main() {
 	if std::env::var("ORACLE_DEBUG").is_err() { std::panic::set_hook(Box::new(|_| {})); }
 	let stdin = std::io::stdin();
@@ -71,6 +93,7 @@ fn main() {
 		let mut args: Vec<i128> = it.map(|x| x.parse::<i128>().expect("bad int")).collect();
 		let r = catch_unwind(AssertUnwindSafe(|| match name.as_str() {
 			"forward_probe" => forward_probe(&mut args),
+			"closing_probe" => closing_probe(&mut args),
 			_ => format!("error unknown function {}", name),
 		}));
 		match r {
